@@ -46,7 +46,7 @@ package manifest
 //@   modifies fresh(mem:string)
 //@   ensures err == nil ==> b.Size >= 0
 
-//@ func parseFileStreamSegment trusted
+//@ func parseFileStreamSegment property C10
 //@   modifies fresh(mem:string)
 
 //@ func parseManifestStream property C10 arith checked
